@@ -190,3 +190,16 @@ PROPS["C09"] = dict(
         R("C09.mtu_honest", "swarms", "TestC09MTU", 400, 16000, shrink=10, quick=dict(checks=400, shards=4, timeout=600)),
     ],
 )
+
+PROPS["C15"] = dict(
+    level="exploration",
+    technique="property-based testing (rapid): frame/unframe round trip through a scripted transport, pairwise frame distinctness, differential against an independent reference decoder, channel-isolation ledger on live stacks",
+    level_text="The harness plays the transport under each multiplexer kind: it captures the exact framed bytes and injects genuine, mutated and random bytes, comparing where they are delivered with an independent decoder; frames of all generated (channel, payload) pairs are compared pairwise; isolation is checked on live in-memory stacks with several channels. Holds on everything generated.",
+    level_note="The reference decoder is written from the documented framing (length-prefixed string, fixed-width big-endian integers, uvarint). Distinctness is checked among generated pairs, not proved.",
+    design_ref="4/C15",
+    assumptions=["frames are compared pairwise among generated cases only"],
+    subs=[
+        R("C15.framing", "swarms", "TestC15Framing", 3000, 200000),
+        R("C15.isolation", "swarms", "TestC15Isolation", 300, 15000, quick=dict(checks=300, shards=2, timeout=600)),
+    ],
+)
